@@ -45,9 +45,13 @@ def gapText (c : UInt8) : Bool := c == 45 || c == 95 || c == 46   -- '-', '_', '
 /-- `dst` of an out-of-place call is filled with 0x77 by the harness -/
 def fill (n : Nat) : Bytes := Array.replicate n 0x77
 
+/-- the result storage of a shuffler call as the harness passes it: the input itself, or `n` cells of 0x77 -/
+def outOf (ip : Bool) (n : Nat) : Out UInt8 := if ip then .inPlace else .separate (fill n)
+
 def step (s : S) (line : String) : S × String :=
   let ws := words line
-  let ip := (argNat? ws "ip").getD 0 == 1
+  let ipn := (argNat? ws "ip").getD 0        -- QRNA: 0 separate, 1 both in place, 2 only xs == x, 3 only ys == y
+  let ip := ipn == 1
   match ws with
   | [] => (s, "bad-op")
   | op :: _ =>
@@ -70,6 +74,14 @@ def step (s : S) (line : String) : S × String :=
         let (o, r') := vecShuffle64 v r
         ({ s with r64 := some r' }, if o.isEmpty then "ok -" else "ok " ++ ",".intercalate (o.toList.map toString))
       | none => (s, "bad-op")
+    else if op == "abcinfo" then
+      -- the alphabet constants this driver hard-codes, compared with the real alphabet object on every run
+      let amino := (arg? ws "abc").getD "dna" == "amino"
+      let K : Nat := if amino then 20 else 4
+      let Kp : Nat := if amino then 29 else 18
+      let gapchars := ((List.range 128).filter (fun c => c ≥ 1 && gapText (UInt8.ofNat c))).map UInt8.ofNat
+      let xisgap := String.join ((List.range Kp).map fun c => if c == K then "1" else "0")
+      (s, s!"ok K={K} Kp={Kp} gapchars={hexOrDash gapchars} xisgap={xisgap} gap={K} nonres={Kp-2} missing={Kp-1}")
     else if op == "seed" || op == "seedfast" then
       match argNat? ws "s" with
       | some sd => if sd = 0 then (s, "bad-op") else
@@ -131,11 +143,11 @@ def step (s : S) (line : String) : S × String :=
         | none => fin "fatal" r'
       else if op == "cshuffle" then
         match argBytes ws "s" with
-        | some a => let (o, r') := cShuffle a r; fin ("ok " ++ hexA o) r'
+        | some a => let (o, r') := cShuffleOut a (outOf ip a.size) r; fin ("ok " ++ hexA o) r'
         | none => (s, "bad-op")
       else if op == "xshuffle" then
         match argBytes ws "s" with
-        | some a => let (o, r') := xShuffle (withSent a) a.size r; fin ("ok " ++ hexA o) r'
+        | some a => let (o, r') := xShuffleOut (withSent a) a.size (outOf ip (a.size + 2)) r; fin ("ok " ++ hexA o) r'
         | none => (s, "bad-op")
       else if op == "cshuffledp" then
         match argBytes ws "s" with
@@ -147,19 +159,19 @@ def step (s : S) (line : String) : S × String :=
         | _, _ => (s, "bad-op")
       else if op == "ckmers" then
         match argBytes ws "s", argNat? ws "k" with
-        | some a, some k => if k = 0 then (s, "bad-op") else let (o, r') := shuffleKmers 0 a a.size k r; fin ("ok " ++ hexA o) r'
+        | some a, some k => if k = 0 then (s, "bad-op") else let (o, r') := shuffleKmersOut 0 a a.size k (outOf ip a.size) r; fin ("ok " ++ hexA o) r'
         | _, _ => (s, "bad-op")
       else if op == "xkmers" then
         match argBytes ws "s", argNat? ws "k" with
-        | some a, some k => if k = 0 then (s, "bad-op") else let (o, r') := shuffleKmers 1 (withSent a) a.size k r; fin ("ok " ++ hexA o) r'
+        | some a, some k => if k = 0 then (s, "bad-op") else let (o, r') := shuffleKmersOut 1 (withSent a) a.size k (outOf ip (a.size + 2)) r; fin ("ok " ++ hexA o) r'
         | _, _ => (s, "bad-op")
       else if op == "cwindows" then
         match argBytes ws "s", argNat? ws "w" with
-        | some a, some w => if w = 0 then (s, "bad-op") else let (o, r') := cShuffleWindows a w r; fin ("ok " ++ hexA o) r'
+        | some a, some w => if w = 0 then (s, "bad-op") else let (o, r') := cShuffleWindowsOut a w (outOf ip a.size) r; fin ("ok " ++ hexA o) r'
         | _, _ => (s, "bad-op")
       else if op == "xwindows" then
         match argBytes ws "s", argNat? ws "w" with
-        | some a, some w => if w = 0 then (s, "bad-op") else let (o, r') := xShuffleWindows (withSent a) a.size w r; fin ("ok " ++ hexA o) r'
+        | some a, some w => if w = 0 then (s, "bad-op") else let (o, r') := xShuffleWindowsOut (withSent a) a.size w (outOf ip (a.size + 2)) r; fin ("ok " ++ hexA o) r'
         | _, _ => (s, "bad-op")
       else if op == "creverse" then
         match argBytes ws "s" with
@@ -226,7 +238,7 @@ def step (s : S) (line : String) : S × String :=
           let base := if dig then 1 else 0
           let rows := if dig then rows.map withSent else rows
           if op == "msashuffle" then
-            let (o, r') := msaShuffle base rows alen r; fin (showRows o) r'
+            let (o, r') := msaShuffleOut base rows alen (if ip then none else some (rows.map fun row => fill row.size)) r; fin (showRows o) r'
           else
             -- fresh bootsample rows: 0x77 fill; the digital branch writes both sentinels, the text branch the NUL
             let boot := rows.map (fun row => if dig then (fill row.size).setIfInBounds 0 255 |>.setIfInBounds (alen+1) 255 else fill row.size)
@@ -260,18 +272,26 @@ def step (s : S) (line : String) : S × String :=
         let arrays : Array (Array String) := ((keys.filterMap get) ++ [lens "ss" 1000, lens "sa" 2000, lens "pp" 3000, gs2, gr2].filterMap id).toArray
         let (o, r') := permuteSeqOrder arrays nseq r
         let rowStr (i : Nat) : String := "/".intercalate (o.toList.map fun a => a.getD i "?")
-        fin ("ok " ++ (if nseq == 0 then "-" else ";".intercalate ((List.range nseq).map rowStr)) ++ " index=ok") r'
+        -- the name index rebuilt at the end (model: `rebuildIndex` / `indexLookup`); `names` is the second per-sequence array
+        let names' : List String := (o.getD 1 #[]).toList
+        let keysIdx := rebuildIndex names'
+        let idxStr : String :=
+          if (argNat? ws "idx").getD 1 == 0 then "none"
+          else if nseq == 0 then "-"
+          else ",".intercalate (names'.map fun nm => match indexLookup keysIdx nm with | some k => toString k | none => "x")
+        fin ("ok " ++ (if nseq == 0 then "-" else ";".intercalate ((List.range nseq).map rowStr)) ++ " index=" ++ idxStr) r'
       else if op == "cqrna" || op == "xqrna" then
         match argBytes ws "x", argBytes ws "y" with
         | some x, some y =>
           if x.size != y.size then (s, "einval") else
           if x.size == 0 then (s, "emem") else      -- ESL_ALLOC(xycol, sizeof(int) * 0): Easel refuses zero-size allocations
           if op == "cqrna" then
-            let ((xs, ys), r') := qrna gapText x y 0 x.size r
+            let ((xs, ys), r') := qrnaOut gapText x y (outOf (ipn == 1 || ipn == 2) x.size) (outOf (ipn == 1 || ipn == 3) y.size) 0 x.size r
             fin ("ok " ++ hexA xs ++ "," ++ hexA ys) r'
           else
             let gap : UInt8 := if (arg? ws "abc").getD "dna" == "amino" then 20 else 4
-            let ((xs, ys), r') := qrna (fun c => c == gap) (withSent x) (withSent y) 1 x.size r
+            let ((xs, ys), r') := qrnaOut (fun c => c == gap) (withSent x) (withSent y)
+              (outOf (ipn == 1 || ipn == 2) (x.size + 2)) (outOf (ipn == 1 || ipn == 3) (y.size + 2)) 1 x.size r
             fin ("ok " ++ hexA xs ++ "," ++ hexA ys) r'
         | _, _ => (s, "bad-op")
       else (s, "bad-op")
